@@ -75,6 +75,7 @@ pub fn run_hostile(a: &Args) {
             }
             // the first two worlds of this kind are fixed: a CYCLIC list and a list cut by the end of its mapping, reached through
             // well-formed auxiliary values (the walk itself has to end)
+            4 => { lines.push("anonat 0 1 rwx".into()); }   // the zero page is mapped (a privileged or legacy target)
             3 => { lines.push(format!("chain {} {}", rng.range(1, 6), if case == 3 { 1 } else if case == 9 { 2 } else { rng.range(0, 2) })); }
             5 if case == 5 => { // K2: a mapped file whose path starts with /SYSV (procfs-core slices path[5..13])
                 let p = "/SYSVab".to_string();
@@ -96,8 +97,10 @@ pub fn run_hostile(a: &Args) {
         // ---- configuration
         let anon0 = target.fact_hex("anon0"); let guard = target.fact_hex("anon1"); let chain = target.fact_hex("chain");
         let blamed = if rng.chance(1, 3) && !target.tids.is_empty() { target.tids[0] } else { target.pid };
-        let regs: Vec<(u64, u64)> = vec![(u64::MAX - 7, u64::MAX), (0, 0), (guard + 0x80000, anon0 + 5), (guard + 299 * 4096 + 7, guard), (rng.next(), rng.next()), (anon0 + 3 * 4096 - 1, anon0 + 3 * 4096 - 1), (1, u64::MAX - 127), (0x8000_0000_0000_0000, 0xffff_ffff_ff60_0000)];
-        let (sp, ip) = *rng.pick(&regs);
+        // a blamed thread id the caller got wrong: none, negative, of another process, absurd
+        let blamed = match case % 8 { 2 => 0, 4 => -1, 6 => 1, 7 => i32::MAX, _ => blamed };
+        let regs: Vec<(u64, u64)> = vec![(u64::MAX - 7, u64::MAX), (0, 0), (guard + 0x80000, anon0 + 5), (guard + 299 * 4096 + 7, guard), (rng.next(), rng.next()), (anon0 + 3 * 4096 - 1, anon0 + 3 * 4096 - 1), (1, u64::MAX - 127), (0x8000_0000_0000_0000, 0xffff_ffff_ff60_0000), (0xffff_ffff_ff60_0800, 0xffff_ffff_ff60_0ff8), (0xffff_ffff_ff60_0ff8, 0x7fff_ffff_f000), (0x7fff_ffff_ffff, 0x7fff_ffff_ffff), (0xffff_ffff_ffff_f000, 0xffff_ffff_ff60_1000)];
+        let (sp, ip) = if kind == 4 { (0x800u64, *rng.pick(&[0x10u64, 0, 127, 128, 4095])) } else { *rng.pick(&regs) };
         let use_crash = kind != 1 || rng.chance(1, 2);
         let (limit, sanitize, skip) = (rng.chance(1, 3), rng.chance(1, 2), rng.chance(1, 3));
         let direct = match kind { 3 if case == 3 || case == 9 => Some(DirectAuxvDumpInfo { program_header_count: 2, program_header_address: chain, linux_gate_address: 0, entry_address: 0 }),
@@ -121,6 +124,15 @@ pub fn run_hostile(a: &Args) {
             // application regions the caller got wrong: at the very top of the address space, of absurd length, empty, across a mapping end
             if case % 5 == 2 { w.set_app_memory(vec![minidump_writer::app_memory::AppMemory { ptr: usize::MAX - 3, length: 16 }]); }
             if case % 5 == 4 { w.set_app_memory(vec![minidump_writer::app_memory::AppMemory { ptr: anon0 as usize, length: 0 }, minidump_writer::app_memory::AppMemory { ptr: anon0 as usize + 3 * 4096 - 8, length: 1 << 46 }]); }
+            if case % 6 == 1 {
+                use minidump_writer::maps_reader::{MappingEntry, MappingInfo, SystemMappingInfo};
+                // caller-supplied mappings with extents the caller got wrong: reaching beyond the top of the address space, empty
+                w.set_user_mapping_list(vec![
+                    MappingEntry { mapping: MappingInfo { start_address: 0xffff_ffff_ff60_0000, size: usize::MAX / 2, system_mapping_info: SystemMappingInfo { start_address: 0xffff_ffff_ff60_0000, end_address: usize::MAX }, offset: 0,
+                        permissions: procfs_core::process::MMPermissions::READ, name: Some("/wrong/extent.so".into()) }, identifier: vec![1; 20] },
+                    MappingEntry { mapping: MappingInfo { start_address: 0x1000, size: usize::MAX, system_mapping_info: SystemMappingInfo { start_address: 0x1000, end_address: 0x1000 }, offset: 0,
+                        permissions: procfs_core::process::MMPermissions::READ, name: None }, identifier: vec![] }]);
+            }
             if let Some(f) = &fifo2 {
                 use minidump_writer::maps_reader::{MappingEntry, MappingInfo, SystemMappingInfo};
                 w.set_user_mapping_list(vec![MappingEntry { mapping: MappingInfo { start_address: 0x1000_0000, size: 0x1000, system_mapping_info: SystemMappingInfo { start_address: 0x1000_0000, end_address: 0x1000_1000 }, offset: 0,
